@@ -1,4 +1,4 @@
-CONSTANTS Graphs <- G1Some
+CONSTANTS Graphs <- G1Pair
 Source = "edits"
 WalkLen = 10
 NEdits = 2
